@@ -259,16 +259,64 @@ def ops_of(e, acc=None):
     return acc
 
 
+def doc_paths(v, pre=()):
+    """all position paths of a JSON value, preorder"""
+    out = [pre]
+    if isinstance(v, dict):
+        for k, x in v.items():
+            out += doc_paths(x, pre + (k,))
+    elif isinstance(v, list):
+        for i, x in enumerate(v):
+            out += doc_paths(x, pre + (i,))
+    return out
+
+
+def path_expr(p):
+    e = None
+    for s in p:
+        step = ("getkey", s) if isinstance(s, str) and s.isalpha() else ("index", ("self",), lit(s))
+        e = step if e is None else ("pipe", e, step)
+    return e if e is not None else ("self",)
+
+
 class Gen:
-    """Type-directed-ish random expressions over the core fragment. `mut` enables assignment forms."""
+    """Type-directed-ish random expressions over the core fragment; doc-aware when a document is set."""
 
     def __init__(self, rng, vars_=(), ro_only=True):
         self.rng = rng
         self.ro_only = ro_only
+        self.doc = None
+
+    def set_doc(self, doc):
+        self.doc = doc
+        self._paths = [p for p in doc_paths(doc) if p] if doc is not None else []
+
+    def simple_path(self, allow_new=True):
+        """a simple path (keys / indices only) as a tuple; mostly existing, sometimes extended into new territory"""
+        rng = self.rng
+        if self._paths and rng.random() < 0.8:
+            p = rng.choice(self._paths)
+        else:
+            p = ()
+        if allow_new and rng.random() < 0.35:
+            for _ in range(rng.choice([1, 1, 2])):
+                p = p + (rng.choice(KEYS + [0, 1, 2, -1]),)
+        return p or (rng.choice(KEYS),)
 
     def path(self, d):
         """a selector: keys / indices / splat composed with pipe"""
         rng = self.rng
+        if self.doc is not None and self._paths and rng.random() < 0.6:
+            p = rng.choice(self._paths)
+            if rng.random() < 0.3 and len(p) > 1:
+                # replace one step by a splat
+                i = rng.randrange(len(p))
+                e = None
+                for j, s in enumerate(p):
+                    step = ("index", ("self",), None) if j == i else (("getkey", s) if isinstance(s, str) else ("index", ("self",), lit(s)))
+                    e = step if e is None else ("pipe", e, step)
+                return e
+            return path_expr(p)
         n = rng.choice([1, 1, 2, 2, 3])
         e = None
         for _ in range(n):
@@ -337,3 +385,41 @@ class Gen:
         if r < 0.97:
             return ("pipe", sub(), ("pipe", ("to_entries",), ("from_entries",)))
         return ("index", sub(), lit(rng.choice([0, 1, -1])) if rng.random() < 0.7 else None)
+
+
+    # ------------------------------------------------------------ updates
+    def value_expr(self, vs=()):
+        rng = self.rng
+        r = rng.random()
+        if r < 0.5:
+            return lit(rng.choice(INTS + STRS[1:5] + [None, True, False]))
+        if r < 0.65:
+            return ("collect", ("union", lit(rng.choice(INTS)), lit(rng.choice(STRS[1:4]))))
+        if r < 0.72:
+            return ("collect", None)
+        if r < 0.9:
+            return path_expr(self.simple_path(allow_new=False))
+        return ("add", path_expr(self.simple_path(allow_new=False)), lit(rng.choice([1, 2, "x"])))
+
+    def lhs(self):
+        rng = self.rng
+        r = rng.random()
+        if r < 0.6:
+            return path_expr(self.simple_path())
+        if r < 0.8:
+            return self.path(2)
+        if r < 0.9:
+            return ("pipe", ("index", path_expr(self.simple_path(allow_new=False)), None), ("select", (rng.choice(["eq", "ne", "lt", "gt"]), ("self",), lit(rng.choice(INTS[:5] + STRS[1:3])))))
+        return ("pipe", ("recurse",), ("select", (rng.choice(["eq", "lt", "gt"]), ("self",), lit(rng.choice(INTS[:5])))))
+
+    def update(self):
+        rng = self.rng
+        r = rng.random()
+        if r < 0.35:
+            return ("assign", self.lhs(), self.value_expr())
+        if r < 0.6:
+            f = rng.choice([("add", ("self",), lit(1)), ("length",), ("collect", ("self",)), lit(0), ("mul", ("self",), lit(2)), ("getkey", rng.choice(KEYS)), ("reverse",), ("sub", ("self",), lit(1))])
+            return ("update", self.lhs(), f)
+        if r < 0.75:
+            return ("compound", rng.choice(["add", "add", "sub", "mul"]), self.lhs(), self.value_expr())
+        return ("del", self.lhs() if rng.random() < 0.7 else ("union", self.lhs(), self.lhs()))
